@@ -4,7 +4,7 @@
 // documents and to state expected results.  Textually parallel to verus/prelude.rs (layout_*).
 #![allow(dead_code)]
 
-pub const MAXB: usize = 64; // capacity of a flat document buffer
+pub const MAXB: usize = 40; // capacity of a flat document buffer
 pub const PAYMAX: usize = 24; // capacity of one item's payload
 
 pub const SCALAR: u32 = 0x2000_0000;
